@@ -1,6 +1,6 @@
 (* C04 — issued tokens never exceed what was granted or what the client may ask for.
    Statements only; proofs are in Proofs/ScopeProofs.v and Proofs/C04Proofs.v. *)
-From Verif Require Import Base Scope Types Prog Pop Token Authorize System Config Run Monitors OneShot ScopeProofs Hoare C04Proofs C04More C04Resources C02Proofs C04Artifacts JwtBearerProofs.
+From Verif Require Import Base Scope Types Prog Pop Token Authorize System Config Run Monitors OneShot ScopeProofs Hoare C04Proofs C04More C04Resources C02Proofs C04Artifacts JwtBearerProofs C04Details.
 Local Open Scope N_scope.
 
 (* A requested scope string is allowed for a client iff it is empty or every space-separated
@@ -76,7 +76,7 @@ Example jwt_bearer_flow_authenticated :
            OpToken GJwtBearer (ex_jb_req (mkCred 1 true) "openid admin" (AsOk "alice"));
            OpToken GJwtBearer (ex_jb_req (mkCred 2 true) "openid" (AsOk "alice"));
            OpToken GJwtBearer (ex_jb_req (mkCred 1 true) "openid" AsBad);
-           OpToken GRefreshToken (mkTReq (mkCred 1 true) (mkBind None 0) "" 0 "" (mint 0 KRefresh) PkEmpty 0 HgOk BaApprove [] AsNone)] with
+           OpToken GRefreshToken (mkTReq (mkCred 1 true) (mkBind None 0) "" 0 "" (mint 0 KRefresh) PkEmpty 0 HgOk BaApprove [] AsNone None)] with
   | [Out (OTokens t); Out (OIntro i); Out (OErr EInvalidScope); Out (OErr EUnauthorizedClient); Out (OErr EInvalidGrant); Out (OTokens t2)] =>
       tr_at t = mint 0 KAtOpaque /\ tr_rt t = mint 0 KRefresh /\ tr_idt t = true /\
       in_active i = true /\ in_sub i = "alice" /\ in_client i = 1 /\ in_scope i = "openid email" /\
@@ -167,10 +167,10 @@ Print Assumptions callback_artifacts_registered.
 (* non-vacuity: a static client registered for authorization_code only whose response_types list a hybrid
    value gets a code for `code` and no access token for `code token` *)
 Example hybrid_without_implicit_refused :
-  let c1 := mkClient 1 false [GAuthorizationCode] ["code"; "code token"] ["https://c/cb"] "openid" CibaNone false false false false false false false 0 false in
+  let c1 := mkClient 1 false [GAuthorizationCode] ["code"; "code token"] ["https://c/cb"] "openid" CibaNone false false false false false false false 0 false None in
   let w := mkWorld (match build POpenID [WithAuthorizationCodeGrant; WithImplicitGrant] with Some c => c | None => base_config POpenID end) [c1] in
-  let p rt := mkParams 0 "https://c/cb" "" rt "openid" "s" "" PkEmpty "" 0 "" 0 "" [] in
-  let a rt := OpAuthorize (mkAReq 1 (p rt) true (PolSuccess "alice" "openid" [])) in
+  let p rt := mkParams 0 "https://c/cb" "" rt "openid" "s" "" PkEmpty "" 0 "" 0 "" [] None in
+  let a rt := OpAuthorize (mkAReq 1 (p rt) true (PolSuccess "alice" "openid" [] [])) in
   match run w [] [a "code"; a "code token"] with
   | [Out (ONav _ _ n1); Out (ONav _ _ n2)] => is_nil (n_code n1) = false /\ n_at n2 = 0 /\ n_code n2 = 0 /\ n_err n2 = Some EInvalidRequest
   | _ => False end.
@@ -247,3 +247,133 @@ Theorem introspection_aud_truthful : forall now p st i,
             in_aud i = (if in_refresh i then g_granted_res g else g_active_res g).
 Proof. exact introspection_aud_of_grant. Qed.
 Print Assumptions introspection_aud_truthful.
+
+(* ---- rich authorization requests (RFC 9396 `authorization_details`) ---- *)
+
+(* The all-of rule.  In every state reachable by any history of operations (any configuration, any
+   compare function of the embedder, any clients, any interleaving of authorization_code, implicit,
+   CIBA poll / ping / push, client_credentials, jwt-bearer and refresh chains of any length, with
+   authorization_details lists mixing supported and unsupported types in any order), EVERY authorization
+   detail a stored grant carries - the active ones of its current token and the granted ones - has a
+   type among those the server supports.  Proviso: what the embedder itself hands to
+   GrantAuthorizationDetails (scripted policy, InitBackAuthFunc) has supported types - the library does
+   not look at it. *)
+Theorem details_types_supported : forall w dyn ops g,
+  Forall (embedder_grants_supported w) ops ->
+  In g (st_gsess (s_store (fst (run_from w (init_state dyn) 0 ops)))) ->
+  (forall d, In d (g_active_details g) -> In (ad_type d) (cf_auth_detail_types (w_cfg w))) /\
+  (forall d, In d (g_granted_details g) -> In (ad_type d) (cf_auth_detail_types (w_cfg w))).
+Proof. exact details_types_supported_all. Qed.
+Print Assumptions details_types_supported.
+
+(* ... and without any proviso on the embedder: in every reachable state every ACTIVE detail of a stored
+   grant - what its current access token carries - has a type the server supports, or is one of the
+   details the embedder granted to that grant. *)
+Theorem details_supported_or_granted : forall w dyn ops g,
+  In g (st_gsess (s_store (fst (run_from w (init_state dyn) 0 ops)))) ->
+  forall d, In d (g_active_details g) ->
+    In (ad_type d) (cf_auth_detail_types (w_cfg w)) \/ In d (g_granted_details g).
+Proof. exact details_supported_or_granted_all. Qed.
+Print Assumptions details_supported_or_granted.
+
+(* With the subset-by-equality compare function (the one the documentation of CompareAuthDetailsFunc
+   describes, installed by the harness by default): in every reachable state the active details of every
+   stored grant are among its granted ones. *)
+Theorem details_within_grant : forall w dyn ops g,
+  cf_details_cmp (w_cfg w) = CmpSubset ->
+  In g (st_gsess (s_store (fst (run_from w (init_state dyn) 0 ops)))) ->
+  forall d, In d (g_active_details g) -> In d (g_granted_details g).
+Proof. exact details_within_grant_all. Qed.
+Print Assumptions details_within_grant.
+
+(* For every store and token request: authorization_code and CIBA yield tokens only if - with rich
+   authorization requests enabled and an authorization_details parameter present - EVERY requested detail
+   has a type the server supports AND the embedder's compare function accepted the list against the
+   details granted to the session; the grant written records the session's granted details and, as the
+   token's details, the requested ones (all granted ones when the parameter is absent).  A refresh: the
+   same against the grant's granted details, which it leaves untouched; the response reports the stored
+   active details.  client_credentials (no resource owner): only if every requested type is supported,
+   granted = active = requested.  jwt-bearer: the same type check, and no detail is recorded.  With the
+   feature off the parameter is ignored and nothing is recorded. *)
+Theorem details_decision : forall w n now r st,
+  (is_tokens (snd (run_seq (code_grant w n now r) st)) = true ->
+   exists s g,
+     find (fun s => ideq (a_code s) (t_code r)) (st_asess st) = Some s /\
+     st_gsess (fst (run_seq (code_grant w n now r) st)) = put_gsess g (st_gsess st) /\
+     (cf_auth_details_enabled (w_cfg w) = true ->
+        (forall l, t_auth_details r = Some l ->
+           (forall d, In d l -> In (ad_type d) (cf_auth_detail_types (w_cfg w))) /\
+           compare_details (cf_details_cmp (w_cfg w)) (a_granted_details s) l = true) /\
+        g_granted_details g = a_granted_details s /\
+        g_active_details g = (match t_auth_details r with Some l => l | None => a_granted_details s end)) /\
+     (cf_auth_details_enabled (w_cfg w) = false -> g_granted_details g = [] /\ g_active_details g = [])) /\
+  (is_tokens (snd (run_seq (ciba_grant w n now r) st)) = true ->
+   exists s g,
+     find (fun s => ideq (a_ciba s) (t_auth_req r)) (st_asess st) = Some s /\
+     st_gsess (fst (run_seq (ciba_grant w n now r) st)) = put_gsess g (st_gsess st) /\
+     (cf_auth_details_enabled (w_cfg w) = true ->
+        (forall l, t_auth_details r = Some l ->
+           (forall d, In d l -> In (ad_type d) (cf_auth_detail_types (w_cfg w))) /\
+           compare_details (cf_details_cmp (w_cfg w)) (a_granted_details s) l = true) /\
+        g_granted_details g = a_granted_details s /\
+        g_active_details g = (match t_auth_details r with Some l => l | None => a_granted_details s end)) /\
+     (cf_auth_details_enabled (w_cfg w) = false -> g_granted_details g = [] /\ g_active_details g = [])) /\
+  (forall t, snd (run_seq (refresh_grant w n now r) st) = OTokens t ->
+   exists g g',
+     find (fun g => ideq (g_refresh g) (t_refresh r)) (st_gsess st) = Some g /\
+     st_gsess (fst (run_seq (refresh_grant w n now r) st)) = put_gsess g' (st_gsess st) /\
+     g_id g' = g_id g /\ g_granted_details g' = g_granted_details g /\
+     (cf_auth_details_enabled (w_cfg w) = true ->
+        (forall l, t_auth_details r = Some l ->
+           (forall d, In d l -> In (ad_type d) (cf_auth_detail_types (w_cfg w))) /\
+           compare_details (cf_details_cmp (w_cfg w)) (g_granted_details g) l = true) /\
+        g_active_details g' = (match t_auth_details r with Some l => l | None => g_granted_details g end)) /\
+     (cf_auth_details_enabled (w_cfg w) = false -> g_active_details g' = g_active_details g) /\
+     tr_details t = g_active_details g' /\ (forall d, In d (tr_jwt_details t) -> In d (g_active_details g'))) /\
+  (is_tokens (snd (run_seq (cc_grant w n now r) st)) = true ->
+   exists g,
+     st_gsess (fst (run_seq (cc_grant w n now r) st)) = put_gsess g (st_gsess st) /\
+     g_active_details g = g_granted_details g /\
+     (cf_auth_details_enabled (w_cfg w) = true ->
+        (forall l, t_auth_details r = Some l -> forall d, In d l -> In (ad_type d) (cf_auth_detail_types (w_cfg w))) /\
+        g_granted_details g = (match t_auth_details r with Some l => l | None => [] end)) /\
+     (cf_auth_details_enabled (w_cfg w) = false -> g_granted_details g = [])) /\
+  (is_tokens (snd (run_seq (jwt_bearer_grant w n now r) st)) = true ->
+   exists g,
+     st_gsess (fst (run_seq (jwt_bearer_grant w n now r) st)) = put_gsess g (st_gsess st) /\
+     g_active_details g = [] /\ g_granted_details g = [] /\
+     (cf_auth_details_enabled (w_cfg w) = true ->
+        forall l, t_auth_details r = Some l -> forall d, In d l -> In (ad_type d) (cf_auth_detail_types (w_cfg w)))).
+Proof. exact details_decision_all. Qed.
+Print Assumptions details_decision.
+
+(* the authorization endpoint (and /par, /bc-authorize, which run the same validator): accepted
+   parameters name only authorization-detail types the server supports and the client registered
+   (a client that registered none may use any supported type) *)
+Theorem authorize_details_supported : forall cfg p c,
+  validate_params cfg p c = None ->
+  cf_auth_details_enabled cfg = true -> forall l, p_auth_details p = Some l -> forall x, In x l ->
+    In (ad_type x) (cf_auth_detail_types cfg) /\ client_detail_type_allowed c (ad_type x) = true.
+Proof. exact authorize_details_supported_all. Qed.
+Print Assumptions authorize_details_supported.
+
+(* what introspection / TokenInfo report as authorization_details is the stored grant's: the active
+   details for an access token, the granted ones for a refresh token *)
+Theorem introspection_details_truthful : forall now p st i,
+  snd (run_seq (introspection_info now p) st) = i -> in_active i = true ->
+  exists g, In g (st_gsess st) /\ g_id g = in_grant i /\
+            in_details i = (if in_refresh i then g_granted_details g else g_active_details g).
+Proof. exact introspection_details_of_grant. Qed.
+Print Assumptions introspection_details_truthful.
+
+(* non-vacuity (Proofs/C04Details.v details_flow_exists): with two supported types and the subset compare
+   function, a code exchange / client_credentials request mixing a supported with an unsupported type is
+   refused whatever the order, a refresh naming an ungranted detail of a supported type is refused, a refresh
+   naming nothing returns to the full grant, /authorize refuses a mixed list *)
+Example details_flow : ex_det_ops <> [] /\ embedder_grants_supported
+    (mkWorld (match build POpenID [WithAuthorizationDetails CmpSubset "payment_initiation" ["account_information"]]
+              with Some c => c | None => base_config POpenID end) [])
+    (OpAuthorize (mkAReq 1 empty_params true (PolSuccess "alice" "openid" [] [ex_d1; ex_d2]))).
+Proof.
+  split; [discriminate|]. intros d Hd. cbn in Hd. destruct Hd as [<-|[<-|[]]]; vm_compute; auto.
+Qed.
